@@ -18,8 +18,18 @@
 // Every case lives in its own scratch directory deep enough (7 levels + root
 // depth) that six "../" stay inside it; the process also changes its working
 // directory into the scratch space and checks that nothing appeared there.
-// "install-dir-nonexec" is a replay-only probe (probe-install-dir-nonexec.json),
-// not part of the enumerated space.
+// Long names: the offending part (/../.., /x, \x, NUL, ...) behind or in front of a
+// run of 100 ... 65536 harmless bytes (around every plausible buffer / echo /
+// file-name limit), long single components as acceptable counterparts.
+// "install-dir-nonexec": the only candidate of the source directory lacks the
+// executable bit.
+//
+// Histories: every sequence of 2 (quick) / 2..3 (thorough) steps out of
+// {install-file, install-dir (with/without overwrite), get, uninstall, list,
+// verify, get of unacceptable variants} plus named longer ones, on ONE
+// CLIManager (and a verifier sharing it) over one tree; every step is judged
+// like a single call: the install source may run only during an install step, a
+// plugin that Get finds is the regular file <root>/<name>/notation-<name>.
 //
 // Oracle (hand-labelled alphabet, the label is cross-checked against the
 // statement's definition "single path component"):
@@ -50,6 +60,7 @@ import (
 	"sync"
 	"sync/atomic"
 	"syscall"
+	"time"
 	"unicode/utf8"
 
 	"github.com/notaryproject/notation-go"
@@ -139,6 +150,40 @@ func alphabet(thorough bool) []nameSpec {
 	a = append(a, nameSpec{Tmpl: "foo", Class: "control-foo", Label: "control-foo", Acceptable: true, Control: true})
 	a = append(a, nameSpec{Tmpl: "foo.bar-1_x", Class: "control-dotted", Label: "control-dotted", Acceptable: true, Control: true})
 
+	// long names: the part that makes the name unacceptable sits behind (or in front of) a run of L harmless
+	// bytes, for L around every plausible buffer / echo / file-name limit; path.Join cancels "<run>/.." lexically,
+	// so the run itself need not (and for L > 255 cannot) exist. Long single components are the acceptable
+	// counterparts; the 240-byte one is a positive control (notation-<name>.json still fits into a file name).
+	runs := []int{100, 129, 300, 4096}
+	singles := []int{129, 255}
+	if thorough {
+		runs = []int{100, 127, 128, 129, 200, 255, 256, 300, 1000, 4096, 65536}
+		singles = []int{100, 128, 129, 200, 255, 256}
+	}
+	for _, L := range runs {
+		run := strings.Repeat("a", L)
+		for _, t := range []struct{ tail, class, label string }{
+			{"/../../x", "long-run-traversal", "up2-x"},
+			{"/../..", "long-run-traversal", "up2"},
+			{"/..", "long-run-traversal", "up1"},
+			{"/../x", "long-run-back-into-root", "up1-x"},
+			{"/x", "long-run-separator", "slash-x"},
+			{"/", "long-run-separator", "slash"},
+			{"\\x", "long-run-backslash", "backslash-x"},
+			{"\x00", "long-run-nul", "nul"},
+			{"\x00/../../x", "long-run-nul", "nul-up2-x"},
+		} {
+			bad(run+t.tail, t.class, fmt.Sprintf("run%d+%s", L, t.label))
+		}
+		bad("../"+run, "traversal-long-tail", fmt.Sprintf("up1+run%d", L))
+		bad("..\\"+run, "backslash-long-tail", fmt.Sprintf("dotdot-backslash+run%d", L))
+		bad("x/"+run, "separator-long-tail", fmt.Sprintf("x-slash+run%d", L))
+	}
+	for _, L := range singles {
+		a = append(a, nameSpec{Tmpl: strings.Repeat("a", L), Class: "long-single", Label: fmt.Sprintf("single%d", L), Acceptable: true})
+	}
+	a = append(a, nameSpec{Tmpl: strings.Repeat("a", 240), Class: "control-long240", Label: "control-long240", Acceptable: true, Control: true})
+
 	// the generated part of the grammar: every '/'-joined sequence of 1..k tokens (k = 2 quick, 3 thorough).
 	// Labelled by construction: two or more tokens contain a separator; a single token carries a hand label.
 	// Sequences with a leading empty token (absolute-looking names outside the scratch tree) are left out.
@@ -216,6 +261,7 @@ const (
 	opList         = "list"
 	opProbeNonExec = "install-dir-nonexec" // the only candidate in the source directory lacks the executable bit (F-16b: its mode was changed before the name was refused)
 	opAll          = "all"
+	opHistory      = "history" // a sequence of calls on one CLIManager object
 )
 
 func operations(thorough bool) []string {
@@ -248,16 +294,17 @@ const (
 // ---------------------------------------------------------------- replay
 
 type replayCase struct {
-	Op         string `json:"operation"`
-	Name       string `json:"name"`     // template, JSON-escaped
-	NameB64    string `json:"name_b64"` // authoritative bytes of the template
-	Class      string `json:"class"`
-	Acceptable bool   `json:"acceptable"`
-	Control    bool   `json:"control,omitempty"`
-	Depth      int    `json:"depth"`
-	Pre        string `json:"pre_state,omitempty"`
-	ListMask   int    `json:"list_kinds_mask,omitempty"`
-	ListNoRoot bool   `json:"list_root_missing,omitempty"`
+	Op         string   `json:"operation"`
+	Name       string   `json:"name"`     // template, JSON-escaped
+	NameB64    string   `json:"name_b64"` // authoritative bytes of the template
+	Class      string   `json:"class"`
+	Acceptable bool     `json:"acceptable"`
+	Control    bool     `json:"control,omitempty"`
+	Depth      int      `json:"depth"`
+	Pre        string   `json:"pre_state,omitempty"`
+	ListMask   int      `json:"list_kinds_mask,omitempty"`
+	ListNoRoot bool     `json:"list_root_missing,omitempty"`
+	Steps      []string `json:"history_steps,omitempty"` // operation "history": calls made one after the other on ONE CLIManager
 }
 
 // ---------------------------------------------------------------- world
@@ -272,6 +319,7 @@ type world struct {
 	desc       ocispec.Descriptor
 	payload    []byte
 	masters    chan string
+	nxMasters  chan string // copies of plugbin WITHOUT the executable bit (install-dir-nonexec), pooled for the same reason
 	masterSeq  atomic.Int64
 	plugbin    []byte
 	plugbinSum string
@@ -309,8 +357,10 @@ func newWorld(r *hx.Run) *world {
 	// a forked child (ETXTBSY).
 	n := 2*runtime.GOMAXPROCS(0) + 2
 	w.masters = make(chan string, n+64)
+	w.nxMasters = make(chan string, n+64)
 	for i := 0; i < n; i++ {
 		w.masters <- w.newMaster()
+		w.nxMasters <- w.newNxMaster()
 	}
 	// Anything the real code does relative to the working directory must land in the scratch space.
 	cwd := filepath.Join(w.scratch, "cwd", "l1", "l2", "l3", "l4", "l5", "l6", "l7")
@@ -327,6 +377,48 @@ func (w *world) newMaster() string {
 		panic(fmt.Sprintf("cannot write sentinel master: %v", err))
 	}
 	return p
+}
+
+func (w *world) newNxMaster() string {
+	p := filepath.Join(w.scratch, "masters", fmt.Sprintf("nx%d", w.masterSeq.Add(1)))
+	_ = os.MkdirAll(filepath.Dir(p), 0o755)
+	if err := os.WriteFile(p, w.plugbin, 0o644); err != nil {
+		panic(fmt.Sprintf("cannot write sentinel master: %v", err))
+	}
+	return p
+}
+
+// borrowNx hands out a pooled non-executable copy; give it back with returnNx.
+func (w *world) borrowNx() string {
+	select {
+	case p := <-w.nxMasters:
+		return p
+	default:
+		return w.newNxMaster()
+	}
+}
+
+// returnNx restores the mode (the real code may have set the executable bit through a hard link) and
+// pools the copy again unless its content was touched.
+func (w *world) returnNx(p, sigContent string) {
+	if contentSig(p) != sigContent {
+		_ = os.Remove(p)
+		return
+	}
+	if err := os.Chmod(p, 0o644); err != nil {
+		_ = os.Remove(p)
+		return
+	}
+	w.nxMasters <- p
+}
+
+// contentSig: size and modification time (a write through any hard link changes the latter).
+func contentSig(p string) string {
+	fi, err := os.Lstat(p)
+	if err != nil {
+		return "missing"
+	}
+	return fmt.Sprintf("%d/%d", fi.Size(), fi.ModTime().UnixNano())
 }
 
 func (w *world) control(fam string, ok bool) {
@@ -447,8 +539,10 @@ type sentinelCfg struct {
 	Commands     map[string]map[string]string `json:"commands"`
 }
 
-func (c *caseEnv) sentinelJSON(version string) []byte {
-	b, err := json.Marshal(sentinelCfg{Marker: c.marker, Name: c.name, Version: version,
+func (c *caseEnv) sentinelJSON(version string) []byte { return c.sentinelJSONNamed(version, c.name) }
+
+func (c *caseEnv) sentinelJSONNamed(version, name string) []byte {
+	b, err := json.Marshal(sentinelCfg{Marker: c.marker, Name: name, Version: version,
 		Capabilities: []string{"SIGNATURE_VERIFIER.TRUSTED_IDENTITY"},
 		Commands:     map[string]map[string]string{"verify-signature": {"stdout": verifyReply}}})
 	must(err)
@@ -478,7 +572,11 @@ func (c *caseEnv) placeExec(raw string, nameSpecific bool) bool {
 		return false
 	}
 	if len(filepath.Base(final))+5 <= 255 {
-		_ = os.WriteFile(final+".json", c.sentinelJSON("1.0.0"), 0o644)
+		name := c.name
+		if !nameSpecific && len(name) > 1024 {
+			name = "" // a decoy of the fixed ring then answers with the name of its own file
+		}
+		_ = os.WriteFile(final+".json", c.sentinelJSONNamed("1.0.0", name), 0o644)
 	}
 	c.placed++
 	if nameSpecific {
@@ -516,7 +614,7 @@ func derived(n string) []string {
 	var out []string
 	seen := map[string]bool{}
 	add := func(s string) {
-		if s == "" || len(s) > 600 || seen[s] {
+		if s == "" || len(s) > 1<<17 || seen[s] {
 			return
 		}
 		seen[s] = true
@@ -558,14 +656,16 @@ func (c *caseEnv) populate() {
 	c.pre = save
 
 	for _, n := range derived(c.name) {
-		c.placeDir(R+"/"+n, true)
+		// executables first: where the executable path and the plugin directory of a name denote the same
+		// place (<run>/../../x) a file witnesses both execution and deletion
 		c.placeExec(R+"/"+n+"/notation-"+n, true)                            // plain string concatenation
 		c.placeExec(filepath.Join(R, n, "notation-"+n), true)                // cleaned join of the three parts
 		c.placeExec(filepath.Join(R, path.Join(n, "notation-"+n)), true)     // what Get computes
 		c.placeExec(R+"/"+n+"/notation-"+filepath.Base(n), true)             // a well-formed plugin directory at the denoted place
 		c.placeExec(filepath.Join(R, n, "notation-"+filepath.Base(n)), true) //
 		c.placeExec(R+"/notation-"+n, true)                                  // name joined to the binary prefix only
-		if strings.HasPrefix(n, "/") {                                       // the name taken as an absolute path
+		c.placeDir(R+"/"+n, true)
+		if strings.HasPrefix(n, "/") { // the name taken as an absolute path
 			c.placeDir(n, true)
 			c.placeExec(n+"/notation-"+n, true)
 			c.placeExec(n+"/notation-"+filepath.Base(n), true)
@@ -725,6 +825,11 @@ func (c *caseEnv) snapAfter() (map[string]entry, bool, error) {
 	if fi, e := os.Lstat(c.master); e != nil || fi.Size() != int64(len(c.w.plugbin)) || fi.Mode().Perm() != 0o755 {
 		intact = false
 	}
+	if intact {
+		c.masterSig = statSig(c.master)
+	} else {
+		c.masterSig = "not intact"
+	}
 	return m, intact, err
 }
 
@@ -875,10 +980,14 @@ func (w *world) runCase(ns nameSpec, depth int, pre, op string) string {
 	}
 	if fam == "install-dir-nonexec" {
 		src = c.installSource(true)
-		// a private copy (a hard link shares its mode with every other sentinel) without the executable bit
+		// a copy of its own (a hard link shares its mode with every other sentinel) without the executable
+		// bit, hard-linked from a pool written before the first fork (no ETXTBSY)
 		must(os.Remove(c.srcExe))
 		_ = os.Remove(c.srcExe + ".json") // it would be a second candidate (plugin "<name>.json")
-		must(os.WriteFile(c.srcExe, w.plugbin, 0o644))
+		nx := w.borrowNx()
+		nxSig := contentSig(nx)
+		defer w.returnNx(nx, nxSig)
+		must(os.Link(nx, c.srcExe))
 	}
 
 	before, err := c.snapBefore()
@@ -1237,6 +1346,386 @@ func (w *world) runList(depth, mask int, noRoot bool) string {
 	return fmt.Sprintf("list:exact/%d-real-directories", len(want))
 }
 
+// ---------------------------------------------------------------- histories on one manager
+
+// Steps of a history. Every step is judged on its own with the oracle of the single-call cases; the
+// install source may run only DURING an install step, every other step may run <root>/<name>/notation-<name> only.
+const (
+	stInstFile   = "install-file"
+	stInstFileOW = "install-file-overwrite"
+	stInstDir    = "install-dir"
+	stInstDirOW  = "install-dir-overwrite"
+	stGet        = "get" // Get + GetMetadata
+	stUninstall  = "uninstall"
+	stList       = "list"
+	stVerify     = "verify" // verifier.Verify (JWS, trusted chain) through a verifier that shares the manager
+	stGetBad     = "get-bad-variants"
+)
+
+var stepAlphabet = []string{stInstFile, stInstFileOW, stInstDir, stInstDirOW, stGet, stUninstall, stList, stVerify, stGetBad}
+
+// histories returns every sequence of 2..maxLen steps plus a few longer named ones.
+func histories(maxLen int) [][]string {
+	var out [][]string
+	seen := map[string]bool{}
+	add := func(h []string) {
+		k := strings.Join(h, ">")
+		if !seen[k] {
+			seen[k] = true
+			out = append(out, append([]string(nil), h...))
+		}
+	}
+	var gen func(prefix []string)
+	gen = func(prefix []string) {
+		if len(prefix) >= 2 {
+			add(prefix)
+		}
+		if len(prefix) == maxLen {
+			return
+		}
+		for _, st := range stepAlphabet {
+			gen(append(append([]string(nil), prefix...), st))
+		}
+	}
+	gen(nil)
+	for _, h := range [][]string{
+		{stInstFile, stUninstall, stGet},
+		{stInstDir, stUninstall, stGet},
+		{stGet, stInstFileOW, stGet},
+		{stGet, stInstDirOW, stGet},
+		{stInstFile, stGet, stVerify},
+		{stInstDir, stList, stGet},
+		{stInstFile, stGet, stUninstall, stGet},
+		{stGet, stUninstall, stInstFile, stGet},
+		{stInstFile, stInstDirOW, stGet, stList},
+		{stVerify, stInstDirOW, stVerify, stUninstall, stVerify},
+	} {
+		add(h)
+	}
+	return out
+}
+
+// badVariants are unacceptable spellings that denote (or look like) the plugin x.
+func badVariants(x string) []string {
+	return []string{"../" + x, x + "/", "./" + x, x + "/../" + x, x + "\x00", "../plugins/" + x, "x/../" + x, x + "\\"}
+}
+
+func stepKind(st string) string {
+	if strings.HasPrefix(st, "install") {
+		return "install"
+	}
+	return st
+}
+
+// realSubdirs is the harness's own look at the plugin root: names of the entries that are directories themselves.
+func realSubdirs(root string) []string {
+	var out []string
+	es, _ := os.ReadDir(root)
+	for _, e := range es {
+		if e.Type().IsDir() {
+			out = append(out, e.Name())
+		}
+	}
+	sort.Strings(out)
+	return out
+}
+
+// runHistory runs the steps one after the other on ONE manager (and one verifier sharing it) over one
+// directory tree and judges every step.
+func (w *world) runHistory(ns nameSpec, depth int, pre string, steps []string) string {
+	r := w.r
+	c := w.newCase(depth, pre)
+	c.name = ns.instantiate(c.dir)
+	masterIntact := true
+	defer func() { c.close(masterIntact) }()
+	rc := replayCase{Op: opHistory, Name: ns.Tmpl, NameB64: base64.StdEncoding.EncodeToString([]byte(ns.Tmpl)), Class: ns.Class,
+		Acceptable: ns.Acceptable, Control: ns.Control, Depth: depth, Pre: pre, Steps: steps}
+	if len(rc.Name) > 300 {
+		rc.Name = rc.Name[:300] + "...(see name_b64)"
+	}
+	if !legalFileName(c.name) || !utf8.ValidString(c.name) {
+		return "history:skipped/name-cannot-be-installed-or-signed"
+	}
+	c.populate()
+	srcFile := c.installSource(false)
+	srcFileExe := c.srcExe
+	srcDir := c.installSource(true)
+	srcDirExe := c.srcExe
+	c.srcExe = ""
+	plugDir := filepath.Join(c.root, c.name)
+	plugExe := filepath.Join(plugDir, "notation-"+c.name)
+
+	mgr := plugin.NewCLIManager(dir.NewSysFS(c.root))
+	vfy, err := verifier.NewVerifierWithOptions(w.store, verifier.VerifierOptions{
+		OCITrustPolicy:                 vt.OCIDoc(vt.Named()[0].SV(), []string{"ca:s"}, []string{"*"}),
+		RevocationCodeSigningValidator: w.validator,
+		PluginManager:                  mgr,
+	})
+	if err != nil {
+		panic("harness set-up: verifier: " + err.Error())
+	}
+	env := forge.Build(forge.Spec{Format: forge.JWS, Chain: w.trusted.X509(), Key: w.trusted.Leaf().Key, Payload: w.payload,
+		Ext: []forge.Attr{{Key: forge.HdrPlugin, Critical: true, Value: c.name}}})
+
+	cur, err := c.snapBefore()
+	if err != nil {
+		r.Infra("history snapshot: %v", err)
+		return "history:infra"
+	}
+	markerOff := 0
+	violated := false
+	// reference model, used for the positive controls only (non-vacuity, never a violation)
+	installed, version := pre == preInstalled, "1.0.0"
+	modelOK := true
+	var trace []string
+
+	for i, st := range steps {
+		var opErr, firstErr error
+		var panicked string
+		var listed []string
+		var src, srcExe string
+		evals := 0
+		attempt := func() {
+			opErr, firstErr, panicked, listed = nil, nil, "", nil
+			evals = 1 // of the attempt that counts
+			defer func() {
+				if v := recover(); v != nil {
+					panicked = fmt.Sprint(v)
+					opErr = fmt.Errorf("panic: %v", v)
+					firstErr = opErr
+				}
+			}()
+			switch st {
+			case stInstFile, stInstFileOW, stInstDir, stInstDirOW:
+				src, srcExe = srcFile, srcFileExe
+				if st == stInstDir || st == stInstDirOW {
+					src, srcExe = srcDir, srcDirExe
+				}
+				_, _, opErr = mgr.Install(ctx, plugin.CLIInstallOptions{PluginPath: src, Overwrite: st == stInstFileOW || st == stInstDirOW})
+				firstErr = opErr
+			case stGet:
+				p, err := mgr.Get(ctx, c.name)
+				firstErr, opErr = err, err
+				if err == nil {
+					evals++
+					_, opErr = p.GetMetadata(ctx, &fw.GetMetadataRequest{})
+				}
+			case stUninstall:
+				opErr = mgr.Uninstall(ctx, c.name)
+				firstErr = opErr
+			case stList:
+				listed, opErr = mgr.List(ctx)
+				firstErr = opErr
+			case stVerify:
+				_, opErr = vfy.Verify(ctx, w.desc, env, notation.VerifierVerifyOptions{ArtifactReference: "reg.io/r@" + w.desc.Digest.String(), SignatureMediaType: forge.JWS})
+				firstErr = opErr
+			case stGetBad:
+				evals = 0
+				firstErr = errors.New("every variant was refused")
+				opErr = firstErr
+				for _, v := range badVariants(c.name) {
+					evals++
+					p, err := mgr.Get(ctx, v)
+					if err == nil {
+						firstErr, opErr = nil, nil
+						evals++
+						_, _ = p.GetMetadata(ctx, &fw.GetMetadataRequest{}) // let a sentinel tell what was found
+					}
+				}
+			default:
+				panic("harness: unknown step " + st)
+			}
+		}
+		// An executable that this process has just copied (Install) can be "busy" for an instant: a child
+		// forked meanwhile by another case still holds the inherited descriptor until it execs. That is an
+		// artefact of running cases in parallel, not an answer of the code: the call is made again.
+		for try := 0; ; try++ {
+			attempt()
+			if opErr == nil || try >= 400 || !(errors.Is(opErr, syscall.ETXTBSY) || strings.Contains(opErr.Error(), "text file busy")) {
+				break
+			}
+			time.Sleep(5 * time.Millisecond)
+		}
+		r.Eval(evals)
+		// state of the plugin directory at the moment the call returned
+		plugFi, plugStatErr := os.Lstat(plugExe)
+		plugIsFile := plugStatErr == nil && plugFi.Mode().IsRegular()
+		wantList := realSubdirs(c.root)
+		after, intact, err := c.snapAfter()
+		masterIntact = intact
+		if err != nil {
+			r.Infra("history snapshot: %v", err)
+			return "history:infra"
+		}
+		mkAll, _ := os.ReadFile(c.marker)
+		var mk string
+		if len(mkAll) >= markerOff {
+			mk = string(mkAll[markerOff:])
+		} else {
+			mk = string(mkAll)
+		}
+		markerOff = len(mkAll)
+		changes := diff(cur, after)
+		cur = after
+		trace = append(trace, fmt.Sprintf("%s:%s", st, map[bool]string{true: "ok", false: "error"}[opErr == nil]))
+
+		describe := func() string {
+			var chs []string
+			for k, ch := range changes {
+				if k == 4 {
+					chs = append(chs, fmt.Sprintf("... %d changes", len(changes)))
+					break
+				}
+				chs = append(chs, ch.kind+" "+rel(c, ch.path))
+			}
+			return fmt.Sprintf("history %v on one CLIManager, name=%q (%s) root=%s pre=%s: step %d (%s) returned error=%s; sentinels run by this step=%q; file-system changes of this step=%v; results so far %v",
+				steps, short(c.name, 80), ns.Label, rel(c, c.root), pre, i+1, st, errText(opErr), short(strings.ReplaceAll(mk, c.dir, "<case>"), 300), chs, trace)
+		}
+		viol := func(reason string) {
+			violated = true
+			r.Violation("history/"+stepKind(st)+"-"+reason+":"+ns.Class, describe(), rc)
+		}
+		if panicked != "" {
+			viol("panic")
+		}
+		acceptable := ns.Acceptable && st != stGetBad
+		if st == stList {
+			// List takes no name: exact result, nothing executed, nothing changed
+			got := append([]string(nil), listed...)
+			sort.Strings(got)
+			if opErr != nil {
+				viol("error")
+			} else if strings.Join(got, "\x00") != strings.Join(wantList, "\x00") {
+				viol("not-exactly-the-real-sub-directories")
+			}
+			if mk != "" {
+				viol("executed")
+			}
+			if len(changes) > 0 {
+				viol("changed-file-system")
+			}
+		} else if !acceptable {
+			if mk != "" {
+				viol("executed-for-unacceptable-name")
+			}
+			if len(changes) > 0 {
+				viol("changed-file-system-for-unacceptable-name")
+			}
+			if firstErr == nil && mk == "" && len(changes) == 0 {
+				viol("no-error")
+			}
+		} else {
+			rest := mk
+			allowed := []string{plugExe}
+			if srcExe != "" {
+				allowed = append(allowed, srcExe) // the source of THIS install step
+			}
+			for _, exe := range allowed {
+				for _, cmd := range []string{"get-plugin-metadata", "verify-signature"} {
+					rest = strings.ReplaceAll(rest, exe+" "+cmd+"\n", "")
+				}
+			}
+			if rest != "" {
+				switch {
+				case strings.Contains(rest, srcFileExe+" ") || strings.Contains(rest, srcDirExe+" "):
+					viol("executed-install-source-outside-plugin-dir")
+				default:
+					viol("executed-outside-plugin-dir")
+				}
+			}
+			for _, ch := range changes {
+				if !within(ch.path, plugDir) {
+					viol(ch.kind + "-outside-plugin-dir")
+					break
+				}
+			}
+			// the manager only ever looks up <root>/<name>/notation-<name>: a plugin that was found is that file
+			if st == stGet && firstErr == nil && !plugIsFile {
+				viol("found-a-plugin-that-is-not-in-the-plugin-dir")
+			}
+			if st == stVerify && opErr == nil && !plugIsFile {
+				viol("verified-with-a-plugin-that-is-not-in-the-plugin-dir")
+			}
+		}
+		if !intact {
+			break
+		}
+
+		// reference model (controls only)
+		if ns.Control {
+			ranPlugin := strings.Contains(mk, plugExe+" ")
+			switch st {
+			case stInstFile, stInstFileOW, stInstDir, stInstDirOW:
+				ow := st == stInstFileOW || st == stInstDirOW
+				want := !installed || version < "2.0.0" || ow
+				// (with overwrite a failure to run the existing plugin is ignored by Install: not part of the model)
+				if (opErr == nil) != want || !strings.Contains(mk, srcExe+" ") || (!ow && ranPlugin != installed) || (ranPlugin && !installed) {
+					modelOK = false
+				}
+				if opErr == nil {
+					installed, version = true, "2.0.0"
+				}
+			case stGet:
+				if (opErr == nil) != installed || ranPlugin != installed {
+					modelOK = false
+				}
+			case stUninstall:
+				if (opErr == nil) != installed {
+					modelOK = false
+				}
+				if opErr == nil {
+					installed = false
+				}
+			case stVerify:
+				if (opErr == nil) != installed || installed != strings.Contains(mk, plugExe+" verify-signature\n") {
+					modelOK = false
+				}
+			case stList:
+				has := false
+				for _, n := range listed {
+					has = has || n == c.name
+				}
+				if has != installed {
+					modelOK = false
+				}
+			case stGetBad:
+				if firstErr == nil {
+					modelOK = false
+				}
+			}
+		}
+
+		// the environment between two calls: an installed executable gets the behaviour file of its source
+		// (same name, same version, same marker), so that whichever file runs next is seen and both answer alike
+		if strings.HasPrefix(st, "install") && opErr == nil && ns.Acceptable {
+			if _, e := os.Lstat(plugExe + ".json"); e != nil && plugIsFile {
+				if os.WriteFile(plugExe+".json", c.sentinelJSON("2.0.0"), 0o644) == nil {
+					if cur, err = c.snapBefore(); err != nil {
+						r.Infra("history snapshot: %v", err)
+						return "history:infra"
+					}
+				}
+			}
+		}
+	}
+	r.Nontrivial(fmt.Sprintf("history|%s|%d|%s|%s", ns.Label, depth, pre, strings.Join(steps, ">")))
+	if ns.Control {
+		w.control(opHistory, modelOK)
+		if !modelOK {
+			r.Outcome("history:control-did-not-behave-as-expected")
+			fmt.Fprintf(os.Stderr, "note: history control did not follow the reference model: %v name=%q pre=%s: %v\n", steps, short(c.name, 40), pre, trace)
+		}
+	}
+	if violated {
+		return "history:VIOLATION"
+	}
+	kind := "unacceptable"
+	if ns.Acceptable {
+		kind = "acceptable"
+	}
+	return fmt.Sprintf("history:%s/len%d/%s", kind, len(steps), trace[len(trace)-1])
+}
+
 // ---------------------------------------------------------------- main
 
 type job struct {
@@ -1247,11 +1736,13 @@ type job struct {
 	// list
 	mask   int
 	noRoot bool
+	// history
+	steps []string
 }
 
 func main() {
 	r := hx.New("C16")
-	r.Rule = "every element of (name of the grammar) x (plugin root 1..4 levels below the scratch base) x (plugin directory pre-installed | absent) x (Get+GetMetadata, Uninstall, Install from file/directory with and without overwrite, SigningKeys.AddPlugin, Verify JWS/COSE with the real CLIManager) is run once on a freshly built real directory tree with sentinel executables at every location a plain or cleaned join of (root, name, notation-name) or a sloppy normalisation of the name denotes, plus a fixed ring of decoys; List: every subset of 8 directory-entry kinds x depth. Non-trivial = unacceptable name with at least one name-specific sentinel/witness really placed outside <root>/<name> (a mis-resolution would be observed), or acceptable name for which the real code executed a sentinel or changed <root>/<name>; List: a root mixing real directories with entries that must not be listed."
+	r.Rule = "every element of (name of the grammar) x (plugin root 1..4 levels below the scratch base) x (plugin directory pre-installed | absent) x (Get+GetMetadata, Uninstall, Install from file/directory with and without overwrite, SigningKeys.AddPlugin, Verify JWS/COSE with the real CLIManager) is run once on a freshly built real directory tree with sentinel executables at every location a plain or cleaned join of (root, name, notation-name) or a sloppy normalisation of the name denotes, plus a fixed ring of decoys; List: every subset of 8 directory-entry kinds x depth; histories: every sequence of 2 (quick) / 2..3 (thorough) steps over a 9-step alphabet plus 10 named longer ones, on ONE CLIManager object shared with a verifier, for control / odd / unacceptable names x pre-state, every step judged on its own (marker delta and snapshot difference of that step). Non-trivial = unacceptable name with at least one name-specific sentinel/witness really placed outside <root>/<name> (a mis-resolution would be observed), or acceptable name for which the real code executed a sentinel or changed <root>/<name>; List: a root mixing real directories with entries that must not be listed; every history."
 	r.Assumptions = []string{
 		"Linux path semantics (the only separator is '/'); the scratch tree holds no symbolic links except in the List family",
 		"reads without side effects (stat/open of a file outside the root that is neither executed nor changed) are not observable and not judged",
@@ -1277,6 +1768,24 @@ func main() {
 			// a violation that cannot be attributed to one case: re-run the whole tier
 		case opList:
 			fmt.Println("replay result:", w.runList(c.Depth, c.ListMask, c.ListNoRoot))
+			r.Finish()
+		case opHistory:
+			tmpl := c.Name
+			if b, err := base64.StdEncoding.DecodeString(c.NameB64); err == nil && c.NameB64 != "" {
+				tmpl = string(b)
+			}
+			ns := nameSpec{Tmpl: tmpl, Class: c.Class, Label: c.Class, Acceptable: c.Acceptable, Control: c.Control}
+			if c.NameB64 == "" && c.Class == "" { // hand-written replay file
+				ns.Acceptable = singleComponent(tmpl)
+				ns.Class, ns.Label = "replay", "replay"
+			}
+			if c.Pre == "" {
+				c.Pre = preInstalled
+			}
+			if c.Depth < 1 {
+				c.Depth = 1
+			}
+			fmt.Println("replay result:", w.runHistory(ns, c.Depth, c.Pre, c.Steps))
 			r.Finish()
 		default:
 			tmpl := c.Name
@@ -1327,12 +1836,40 @@ func main() {
 		}
 		jobs = append(jobs, job{op: opList, depth: d, noRoot: true})
 	}
+	// histories on one manager object: every sequence of 2 (quick) / 2..3 (thorough) steps plus named longer ones
+	listCases := len(jobs) - nameCases
+	hists := histories(2)
+	histDepths := []int{1}
+	histNames := map[string]bool{"control-foo": true, "control-long240": true, "dotdot": true}
+	if thorough {
+		hists = histories(3)
+		histDepths = []int{2}
+		histNames = map[string]bool{"control-foo": true, "control-dotted": true, "control-long240": true, "blank-inside": true, "newline-inside": true, "dotdot": true, "backslash": true, "dot": true}
+	}
+	nHistNames := 0
+	for _, ns := range names {
+		if !histNames[ns.Label] {
+			continue
+		}
+		nHistNames++
+		for _, d := range histDepths {
+			for _, pre := range []string{preInstalled, preAbsent} {
+				for _, h := range hists {
+					jobs = append(jobs, job{ns: ns, depth: d, pre: pre, op: opHistory, steps: h})
+				}
+			}
+		}
+	}
+	r.Extra["history_cases"] = len(jobs) - nameCases - listCases
+	r.Extra["history_step_sequences"] = len(hists)
+	r.Extra["history_names"] = nHistNames
+	r.Extra["history_step_alphabet"] = stepAlphabet
 	r.Extra["names"] = len(names)
 	r.Extra["depths"] = depths
 	r.Extra["operations"] = ops
 	r.Extra["pre_states"] = []string{preInstalled, preAbsent}
 	r.Extra["name_cases"] = nameCases
-	r.Extra["list_cases"] = len(jobs) - nameCases
+	r.Extra["list_cases"] = listCases
 	var acc, unacc int
 	for _, ns := range names {
 		if ns.Acceptable {
@@ -1344,8 +1881,28 @@ func main() {
 	r.Extra["names_acceptable"] = acc
 	r.Extra["names_unacceptable"] = unacc
 
+	// internal deadline: under machine load the run is cut (and says so) rather than overrunning its budget
+	if thorough {
+		r.SetDeadline(9 * time.Minute)
+	} else {
+		r.SetDeadline(38 * time.Second)
+	}
+	var done, cut atomic.Int64
 	r.Parallel(len(jobs), func(i int) {
 		j := jobs[i]
+		if r.Expired() {
+			cut.Add(1)
+			return
+		}
+		defer done.Add(1)
+		if j.op == opHistory {
+			cls := w.runHistory(j.ns, j.depth, j.pre, j.steps)
+			r.Outcome(cls)
+			if i%173 == 0 {
+				r.Sample(map[string]any{"operation": "history", "steps": j.steps, "name": short(j.ns.Tmpl, 60), "label": j.ns.Label, "depth": j.depth, "pre_state": j.pre, "outcome": cls})
+			}
+			return
+		}
 		if j.op == opList {
 			r.Outcome(w.runList(j.depth, j.mask, j.noRoot))
 			if i%97 == 0 {
@@ -1359,6 +1916,10 @@ func main() {
 			r.Sample(map[string]any{"name": short(j.ns.Tmpl, 60), "label": j.ns.Label, "acceptable": j.ns.Acceptable, "depth": j.depth, "pre_state": j.pre, "operation": j.op, "outcome": cls})
 		}
 	}, nil)
+
+	if n := cut.Load(); n > 0 {
+		r.Capped(fmt.Sprintf("internal deadline: %d of %d cases completed (cases are ordered single calls, List, histories)", done.Load(), len(jobs)))
+	}
 
 	// nothing may have been created relative to the working directory
 	cwdTop := filepath.Join(w.scratch, "cwd")
@@ -1392,7 +1953,7 @@ func main() {
 		}
 	}
 	w.ctlMu.Unlock()
-	for _, f := range []string{opGet, opUninstall, "install-file", "install-dir", opAddPlugin, "verify"} {
+	for _, f := range []string{opGet, opUninstall, "install-file", "install-dir", opAddPlugin, "verify", opHistory} {
 		if _, ok := ctl[f]; !ok {
 			r.Infra("vacuous run: no positive control ran for %s", f)
 		}
